@@ -183,9 +183,26 @@ func genLongList(t *rapid.T) Case {
 	return Case{Type: s, Params: params, Val: b}
 }
 
+// genRefused: a complete value of an aggregate schema type in which the members no value of which can be marshalled
+// (OBJECT IDENTIFIER, open types) are present too: the codec must refuse it.
+func genRefused(t *rapid.T) Case {
+	spec := TypeSpec{Reg: rapid.SampledFrom([]string{"CHFRecord", "ChargingRecord", "ChargingRecord", "ManagementExtension", "Diagnostics"}).Draw(t, "agg")}
+	typ := spec.Build()
+	pv := reflect.New(typ)
+	params := ""
+	if spec.Reg == "CHFRecord" {
+		params = "explicit,choice"
+	}
+	g := &valGen{t: t, full: true, withUnsupported: true}
+	g.fill(pv.Elem(), parseTag(params), 0)
+	b, _ := json.Marshal(pv.Interface())
+	return Case{Type: spec, Params: params, Val: b}
+}
+
 // scaleCase: one case of every class, so that no class is left to chance
 type scaleCase struct {
 	Wide, Deep, Full, Long []Case
+	Refused                []Case // judged in turn with the complete values: refused, then a value that must be accepted
 }
 
 func genScale(t *rapid.T) scaleCase {
@@ -198,6 +215,9 @@ func genScale(t *rapid.T) scaleCase {
 		sc.Full = append(sc.Full, genFull(t))
 	}
 	sc.Long = append(sc.Long, genLongList(t))
+	for i := 0; i < 4; i++ {
+		sc.Refused = append(sc.Refused, genRefused(t))
+	}
 	return sc
 }
 
@@ -219,6 +239,8 @@ func judgeScale(j func(Case) *h.Verdict) func(scaleCase) *h.Verdict {
 		}
 		run(sc.Wide, "members>=63")
 		run(sc.Deep, "nesting>=16")
+		// a value the codec must refuse, then complete values of the same types that it must accept
+		run(sc.Refused, "refused-value-just-before")
 		run(sc.Full, "complete-schema-value")
 		run(sc.Long, "list>=65535-elements")
 		return agg
